@@ -795,6 +795,15 @@ func genCase(kind string) func(rt *rapid.T) Case {
 			fk := rapid.SampledFrom([]string{"rowfmt", "rowfmt2"}).Draw(rt, "fmtkind")
 			f, r, _ := pkggen.GenWithFormat(rt, fk, ctx)
 			c.Pkgs = []rc.P{f, r}
+			if rapid.Bool().Draw(rt, "rowbefore") {
+				// an earlier, complete row of the same result set in front of the truncated one
+				// (it is delivered - and its values are the consumer's - while the next row is incomplete)
+				r0 := &rc.Row{Tok: rc.TokRow}
+				for _, col := range f.Fmt.Cols {
+					r0.Cells = append(r0.Cells, pkggen.CellFor(rt, col))
+				}
+				c.Pkgs = []rc.P{f, {Row: r0}, r}
+			}
 		case "params":
 			fk := rapid.SampledFrom([]string{"paramfmt", "paramfmt2"}).Draw(rt, "fmtkind")
 			f, r, _ := pkggen.GenWithFormat(rt, fk, ctx)
